@@ -21,6 +21,11 @@ import sys
 repo = os.environ["VERIF_REPO"]
 work = os.environ["VERIF_WORK"]
 src = os.path.join(repo, "internal", "rsm", "statemachine.go")
+# when the schedrewrite step of this check ran before (part rsm-sched), derive from its copy
+# (same source, sync/atomic imports redirected to the shims) and take over the overlay entry
+schedx = os.path.join(work, "schedx", "internal__rsm__statemachine.go")
+if os.path.exists(schedx):
+    src = schedx
 with open(src) as f:
     text = f.read()
 
@@ -47,3 +52,11 @@ body = body.replace(anchor, "\ts.mu.Lock()\n\tdefer func() { s.mu.Unlock(); veri
 text = text[:start] + body + text[end:]
 with open(os.path.join(work, "statemachine_c08.go"), "w") as f:
     f.write(text)
+import json
+genp = os.path.join(work, "overlay.gen.json")
+if os.path.exists(genp):
+    with open(genp) as f:
+        gen = json.load(f)
+    if gen.pop("internal/rsm/statemachine.go", None) is not None:
+        with open(genp, "w") as f:
+            json.dump(gen, f, indent=1)
